@@ -98,6 +98,8 @@ def discharge(o, model_vars=None):
             except Exception:
                 pass
         res['model'] = mv
+        if not o.st.trace and mv:
+            res['script'] += ' model={%s}' % ', '.join('%s=%s' % kv for kv in sorted(mv.items()) if not kv[0].endswith('.callable'))[:400]
     else:
         res['verdict'] = 'undecided'; res['reason'] = so.reason_unknown()
     so.pop()
